@@ -5,6 +5,7 @@ import engine_runner as er
 import oracles as orc
 import c08
 from model import Model
+from pyval import enc
 
 def serial_oracle(b, q, opn, variables, hub, resp):
     doc = er.parse_doc(q)
@@ -33,6 +34,11 @@ def serial_oracle(b, q, opn, variables, hub, resp):
         got = list(data.keys())
         # every collected root field is listed (a null one as null), in document order
         if got != keys: pr.append(f"root fields listed as {got}, the collected root fields in document order are {keys}")
+    # "a failing non-null root field nulls data": no null may stand at a non-null position of the answer
+    try:
+        pr += [x for x in orc.check_conforms(b.model, doc, opn, variables, enc(data)) if x.startswith("null at non-null")][:1]
+    except Exception:
+        pass
     return pr[:3]
 
 RULE = "generated MUTATION requests (several root fields, aliases, fragments at the root, nested gated resolvers, failing nullable and non-null roots) on engines built with 4-8 concurrency configurations, under first / last / random / (few gates) all schedules; oracle on the real start/finish event log: no resolver of root field j starts while anything of an earlier root field is in flight; root keys in document order; non-trivial = at least two resolvers awaited at the same time"
